@@ -51,7 +51,7 @@ int in_ncond[N]; _Bool in_cres[N][MAXC];
 int in_nact[N]; int in_athrow[N][MAXA];
 _Bool in_hasret[N]; int in_rthrow[N]; int in_rval[N];
 int in_K[N]; int in_seq0[N]; _Bool in_linked[N][2];
-char nm_name[N][2]; char nm_file[N][2]; char nm_seq[NSEQ][2];
+char nm_name[N][2]; char nm_file[N][2]; char nm_seq[NSEQ][2]; char nm_cond[N][MAXC][2]; char nm_func[2]; char nm_sig[2];
 
 #define CMB_OF(i) (&cm[i]->_b0)
 #define LE_OF(i) (&cm[i]->_b0._b0)
@@ -144,7 +144,7 @@ static void build_world(void)
     for (int c = 0; c < MAXC; c++) if (c < in_ncond[i]) {
       cond[i][c] = VP_NEW(struct COND);
       in_cres[i][c] = nondet_bool();
-      cond[i][c]->g_result = in_cres[i][c]; cond[i][c]->id = nm_name[i]; cond[i][c]->_b0.vp_tag = VP_TAG_USER_S_list_elem_condition_base_int_int;
+      cond[i][c]->g_result = in_cres[i][c]; cond[i][c]->id = nm_cond[i][c]; cond[i][c]->_b0.vp_tag = VP_TAG_USER_S_list_elem_condition_base_int_int;
       struct S_list_elem_condition_base_int_int *ce = &cond[i][c]->_b0;
       ce->prev = cs->prev; ce->next = cs; cs->prev->next = ce; cs->prev = ce;
     }
